@@ -36,3 +36,27 @@ package phyloxml
 //@   loop 1
 //@     invariant [callback_called_once_per_phylogeny_so_far] ghost(fncalls_it) == lold(ghost(fncalls_it)) + rangeindex + 1
 //@   ensures [callback_called_once_per_phylogeny] ghost(fncalls_it) == old(ghost(fncalls_it)) + len(p.Phylogenies)
+
+// ---------------------------------------------------------------------------
+// Clade <-> tree conversion (properties C13, C02)
+// cladeToTree: one new node per clade, under the node of the enclosing clade; the branch takes the clade's length
+// when it has one, and its confidence as support only for clades that have sub-clades; the node takes the clade's
+// name (else its scientific name, else its taxonomy code); a clade without sub-clade and without name is an error.
+// writeClade: recursion visits every other neighbour with the branch leading to it, one level deeper.
+// ---------------------------------------------------------------------------
+
+//@ func io/phyloxml.cladeToTree
+//@   flag noframe
+//@   flag lightcalls
+//@   requires c != nil && t != nil && nedges != nil && nnodes != nil
+//@   call (*tree.Tree).ConnectNodes [the_clade_node_hangs_under_the_node_of_the_enclosing_clade] a0 == t && a1 == parent && a2 == newNode && parent != nil && fresh(newNode)
+//@   call (*tree.Edge).SetLength [branch_takes_the_clade_length_when_present] c.BranchLength != nil && a1 == *c.BranchLength && a0 == e
+//@   call (*tree.Edge).SetSupport [confidence_becomes_the_support_of_inner_clades_only] c.Confidence != nil && len(c.Clades) > 0 && a1 == *c.Confidence && a0 == e
+//@   call (*tree.Node).SetName [name_then_scientific_name_then_code] a0 == newNode && ((c.Name != "" && a1 == c.Name) || (c.Name == "" && c.Tax.ScientificName != "" && a1 == c.Tax.ScientificName) || (c.Name == "" && c.Tax.ScientificName == "" && c.Tax.Code != "" && a1 == c.Tax.Code))
+//@   call (*tree.Tree).SetRoot [only_the_outermost_clade_becomes_the_root] parent == nil && a1 == newNode
+//@   call io/phyloxml.cladeToTree [sub_clades_are_converted_under_the_new_node_with_the_same_counters] a1 == t && a2 == newNode && a3 == nedges && a4 == nnodes
+
+//@ func io/phyloxml.writeClade
+//@   flag noframe
+//@   requires n != nil && allocated(n) && buf != nil && INV12()
+//@   call io/phyloxml.writeClade [every_other_neighbour_is_written_one_level_deeper_with_the_branch_leading_to_it] a0 == child && child != prev && a1 == n && a2 == nextedge && nextedge == n.br[rangeindex + 1] && a3 == buf && a4 == level + 1
